@@ -122,7 +122,7 @@ func c04Filter(f *eng.Fail, mo *c04Monitor) *eng.Fail {
 func init() {
 	checks["C04"] = eng.Check{
 		Hist:        true,
-		Rule:        "the C03 program space (every program of <=3, thorough 4, instructions over the 36-word alphabet x 4 initial states incl. pre-loaded registers and memory) x <=8 steps with an instrumented state provider; a monitor checks every request: a register only if never preset, written or supplied, at most once; a memory range only if none of its bytes is in the image, preset, written or supplied and no byte twice; a read whose reported value differs from the reference machine (memory = image + provider bytes + program writes) and which covers a supplied byte / register is reported as 'supplied value not observed'; a step that asked the provider for memory and then reports or computes something else than known and supplied bytes together is reported too. Non-trivial = run with at least one provider request.",
+		Rule:        "the C03 program space (every program of <=3, thorough 4, instructions over the 36-word alphabet x 4 initial states incl. pre-loaded registers and memory) x <=8 steps with an instrumented state provider; a monitor checks every request: a register only if never preset, written or supplied, at most once; a memory range only if none of its bytes is in the image, preset, written or supplied and no byte twice; a read whose reported value differs from the reference machine (memory = image + provider bytes + program writes) and which covers a supplied byte / register is reported as 'supplied value not observed'; a step that asked the provider for memory and then reports or computes something else than known and supplied bytes together is reported too. Plus every program of <=3 SYNTHETIC instructions over a 17-instruction alphabet (loads of 2..255 bytes spanning the image, a gap, a second image block and unknown memory; constant stores over the image, into the gap and across the image start; a register-valued store; a memory-to-memory copy; a register + memory sum) run through the real emulator over Overlay(Bytes(image), Sparse) with a recording provider: every request only for bytes / registers never known and at most once; every value stored or written equals the effects evaluated over image + supplied + written bytes. Non-trivial = run with at least one provider request.",
 		Assumptions: []string{"runs stop at the first state mismatch (reported by C03), so requests after a mismatch are not judged"},
 		Run: func(r *eng.Run) {
 			c03Enumerate(r, func(c c03Case) {
@@ -150,9 +150,40 @@ func init() {
 					r.Outcome(fmt.Sprint("requests=", reqs))
 				}
 			})
+			// synthetic programs (loads and stores of up to 255 bytes across image, unknown memory,
+			// supplied bytes and program writes): every program of <=3 instructions of the alphabet
+			na := len(c04SynAlphabet())
+			r.Par(na, func(i int) {
+				var rec func(seq []int)
+				rec = func(seq []int) {
+					f, asks := c04SynRun(c04SynCase{Syn: seq})
+					r.Eval(1)
+					r.State(1)
+					r.Trace(1)
+					r.Trans(len(seq))
+					if asks > 0 {
+						r.Nontrivial(1)
+					}
+					if f != nil {
+						r.Report(f)
+						r.Outcome(f.Sig)
+					}
+					if len(seq) < 3 {
+						for k := 0; k < na; k++ {
+							rec(append(seq[:len(seq):len(seq)], k))
+						}
+					}
+				}
+				rec([]int{i})
+			})
 			r.Sample(c03Case{Words: []uint32{prog.Sh(3, 5, 2), prog.Ld(7, 5, 0)}, Text: []string{"sh x3,2(x5)", "ld x7,0(x5)"}, Init: c03Inits[2], Steps: 8, Entry: c03Base})
 		},
 		Replay: func(r *eng.Run, raw json.RawMessage) *eng.Fail {
+			var sc c04SynCase
+			if err := json.Unmarshal(raw, &sc); err == nil && len(sc.Syn) > 0 {
+				f, _ := c04SynRun(sc)
+				return f
+			}
 			var c c03Case
 			if err := json.Unmarshal(raw, &c); err != nil {
 				panic(err)
